@@ -52,7 +52,9 @@ def run_case(exe, proc, shim, root, case):
     os.makedirs(os.path.join(root, "exec"))
     spec = ["%d:%d:%d:%d:%d:%d" % m for m in mem]
     if ev == "timeout":
-        conf = 'robsddir "%s"\nbsd-srcdir "%s"\ncvs-user "nobody"\nregress "bin/ksh"\nregress-timeout 1s\n' % (root, root)
+        ser = case.get("serial")
+        conf = 'robsddir "%s"\nbsd-srcdir "%s"\ncvs-user "nobody"\nregress "bin/ksh"%s\nregress-timeout 1s\n%s' % (
+            root, root, " no-parallel" if ser == "no-parallel" else "", "parallel no\n" if ser == "parallel no" else "")
         with open(os.path.join(root, "exec", "robsd-regress-exec.sh"), "w") as f:
             f.write("exec %s %s 0 %s\n" % (proc, root, " ".join(spec)))
         argv = [exe, "-m", "robsd-regress", "-C", os.path.join(root, "t.conf"), "bin/ksh"]
@@ -161,7 +163,7 @@ def run(ctx):
             # the main process is gone when the request arrives; a member with the default disposition is not
             mem_.append((len(mem_), 0, 0, 9000, 0, 0))
         cases.append(dict(ev=ev, inherit=inherit, main_ignore=main_ignore, main_life=main_life, main_code=main_code, offset=rng.choice([0.05, 0.2, 0.45]),
-                          mem=mem_, nostderr=nostderr))
+                          mem=mem_, nostderr=nostderr, serial=[None, "no-parallel", "parallel no"][(t // len(plan) + (1 if inherit else 0) + (2 if nostderr else 0)) % 3] if ev == "timeout" else None))
     from concurrent.futures import ThreadPoolExecutor
     with ThreadPoolExecutor(max_workers=6) as ex:
         results = list(ex.map(lambda ic: run_case(exe, proc, shim, os.path.join(ctx.scratch, "c07-%d" % ic[0]), ic[1]), enumerate(cases)))
